@@ -404,7 +404,43 @@ def driver(tier, seed, t0):
             if n and not bad:
                 results.append(res(HELD, {'history': i, 'threads': hc['threads'], 'monitor_evaluations': n}, m,
                                    '%d evaluations, silent' % n, ratio=0.0))
-    extra = {'call_specs': len(specs), 'reference_entries_from_fresh_processes': nref, 'histories': len(hist),
+    suite = None
+    if tier == 'thorough':
+        # the repository's own suite, observed by the attached monitors
+        sout = os.path.join(WORK, 'suite.json')
+        env2 = dict(env)
+        env2['VERIF_PLUGIN_OUT'] = sout
+        tests = ['tests/test_dwt.py', 'tests/test_dwt1d.py', 'tests/test_dtcwt.py', 'tests/test_scatnet_fwd.py']
+        try:
+            with open(os.path.join(WORK, 'suite.log'), 'w') as lf:
+                subprocess.run([sys.executable, '-m', 'pytest', '-q', '-p', 'no:cacheprovider', '-p', 'vf.pytest_plugin',
+                                '-n', '8', '--timeout=1800'] + tests, cwd=core.repo_path(), env=env2, stdout=lf,
+                               stderr=subprocess.STDOUT, timeout=3000)
+        except subprocess.TimeoutExpired:
+            results.append(res(INCONCLUSIVE, {'suite': tests}, 'suite', 'repository suite under monitors timed out'))
+        suite = {'counts': {}, 'ops': 0, 'violations': 0, 'workers': 0}
+        for f in os.listdir(WORK):
+            if f.startswith('suite.json.'):
+                d = json.load(open(os.path.join(WORK, f)))
+                suite['workers'] += 1
+                suite['ops'] += d['ops']
+                for k, v in d['counts'].items():
+                    suite['counts'][k] = suite['counts'].get(k, 0) + v
+                seen = set()
+                for g in d['records']:
+                    k = (g['monitor'], g['where'], g.get('test'))
+                    if k in seen or g['monitor'] in ('M-SHAPE.dtype', 'M-DISP.precision'):
+                        continue
+                    seen.add(k)
+                    suite['violations'] += 1
+                    results.append(res(VIOLATED, {'repo_test': g.get('test'), 'where': g['where']}, g['monitor'] + '@suite',
+                                       g['detail']))
+        if suite['workers'] and suite['counts'].get('M-ARG', 0):
+            results.append(res(HELD, {'suite': tests, 'monitor_evaluations': suite['counts']}, 'M-ARG@suite',
+                               'repository suite observed: %d M-ARG evaluations' % suite['counts']['M-ARG'], ratio=0.0))
+        elif not any(r['monitor'] == 'suite' for r in results):
+            results.append(res(INCONCLUSIVE, {'suite': tests}, 'suite', 'no monitor output from the repository suite run'))
+    extra = {'repository_suite_under_monitors': suite, 'call_specs': len(specs), 'reference_entries_from_fresh_processes': nref, 'histories': len(hist),
              'events_recorded': events_total, 'thread_counts': sorted(threads_seen),
              'distinct_schedule_signatures': len(sigs), 'calls_started_while_another_was_open': overlaps,
              'library_lines_observed_by_injector': lines, 'yields_injected': yields, 'faults_injected': faults,
